@@ -90,7 +90,7 @@ func init() {
 		Name:  "OPT-bij",
 		Doc:   "each With* constructor installs a closure that stores exactly one options field, the field its name spells, the stored value being the constructor's parameter or the constant true; constructors ↔ fields is a bijection (url: parserOptions, canonicalizer: profile)",
 		Props: []string{"C16"},
-		Floor: 25,
+		Floor: 15,
 		Run: func(c *Ctx, s *core.Sink) {
 			for _, t := range []struct{ pkg, typ string }{{"url", "parserOptions"}, {"canonicalizer", "profile"}} {
 				optT := c.P.Type(t.pkg, t.typ)
@@ -762,7 +762,7 @@ func init() {
 		Name:  "OPT-consumers",
 		Doc:   "each relaxing parser option is read only where its trigger holds, so that switching it on cannot change the result for inputs without the trigger: accept-invalid-code-points only after the invalid-code-point test; percent-encode-single-percent-sign only after an invalid-percent test; skip-drive-letter-normalization only after the drive-letter test; collapse-consecutive-slashes replaces a segment only when the last one is empty; lax-host-parsing only on branches whose other arm fails; skip-equals only omits the '='",
 		Props: []string{"C16"},
-		Floor: 8,
+		Floor: 4,
 		Run: func(c *Ctx, s *core.Sink) {
 			type site struct {
 				f   *ssa.Function
